@@ -72,6 +72,13 @@ def expected(it, regs, cur, size, labels):
     def wr(r, v):
         if r:
             x[r] = v & M32
+
+    env = labels
+
+    class _T(dict):      # a numeric operand of a transfer is a pc-relative offset, a name is a label
+        def __getitem__(self, t):
+            return (cur + t) if isinstance(t, int) else env[t]
+    labels = _T()
     if n in ('nop', 'fence'):
         pass
     elif n == 'li':
@@ -232,6 +239,13 @@ def programs(tier):
     for t in ('A', 'B'):
         lines += [L.pseudo('j', t), L.pseudo('jal', t), L.pseudo('call', t), L.pseudo('tail', t)]
     lines += [L.pseudo('ret'), L.pseudo('nop'), L.pseudo('fence')]
+    # numeric operands: the documentation equates `j offset` with `jal x0, offset`, `beqz rs, offset` with `beq rs, x0, offset`, ...
+    for off in (8, -8, 0, 254, -256, 2046, -2048):
+        lines += [L.pseudo(n, 8, off) for n in BR1] + [L.pseudo(n, 8, 9, off) for n in BR2] + [L.pseudo(n, off) for n in ('j', 'jal', 'call', 'tail')]
+    for off in (4094, -4096, 0x7fffe, -0x80000):
+        lines += [L.pseudo(n, 5, off) for n in BR1 if abs(off) <= 4096] + [L.pseudo(n, off) for n in ('j', 'jal', 'call', 'tail')]
+    for off in (0x100000, -0x100002, 0x12345678):
+        lines += [L.pseudo(n, off) for n in ('call', 'tail')]
     for ch in kernel.chunks(lines, 48):       # short batches: every target stays within c.beqz / c.j reach
         out.append(wrap(ch))
     # li: all 32 rd x structured values
